@@ -864,19 +864,29 @@ class H2Stream:
 
             input_ = StreamInputs.SEND_INFORMATIONAL_HEADERS
 
-        events = self.state_machine.process_input(input_)
+        sm = self.state_machine
+        saved = (sm.state, sm.headers_sent, sm.trailers_sent)
+        events = sm.process_input(input_)
 
-        # This must be checked before the headers are encoded: a call that
-        # raises must not have touched the header compression context.
-        if self.state_machine.trailers_sent and not end_stream:
-            raise ProtocolError("Trailers must have END_STREAM set.")
+        try:
+            # This must be checked before the headers are encoded: a call
+            # that raises must not have touched the header compression
+            # context.
+            if sm.trailers_sent and not end_stream:
+                raise ProtocolError("Trailers must have END_STREAM set.")
 
-        hf = HeadersFrame(self.stream_id)
-        hdr_validation_flags = self._build_hdr_validation_flags(events)
-        frames = self._build_headers_frames(
-            headers, encoder, hf, hdr_validation_flags,
-            first_frame_overhead=(5 if priority_present else 0)
-        )
+            hf = HeadersFrame(self.stream_id)
+            hdr_validation_flags = self._build_hdr_validation_flags(events)
+            frames = self._build_headers_frames(
+                headers, encoder, hf, hdr_validation_flags,
+                first_frame_overhead=(5 if priority_present else 0)
+            )
+        except Exception:
+            # A refused header block is never sent, so the stream must not
+            # behave as if it had been: otherwise DATA could follow on a
+            # stream whose HEADERS the peer has never seen.
+            sm.state, sm.headers_sent, sm.trailers_sent = saved
+            raise
 
         if end_stream:
             # Not a bug: the END_STREAM flag is valid on the initial HEADERS
